@@ -134,7 +134,13 @@ func genHandlerCase(t *rapid.T) Case {
 	if rapid.IntRange(0, 3).Draw(t, "handler-invalid") == 2 {
 		return genInvalidCase(t)
 	}
-	return genValidCase(t)
+	c := genValidCase(t)
+	c.Inspect = false
+	if rapid.IntRange(0, 5).Draw(t, "big") == 0 {
+		c.PadWS = rapid.SampledFrom([]int{1<<20 - 4096, 1 << 20, 1<<20 + 1, 1200000, 3 << 20}).Draw(t, "pad")
+	}
+	c.Chunked = rapid.IntRange(0, 2).Draw(t, "chunked") == 0
+	return c
 }
 
 func runHandler(c Case) []ev.Violation {
@@ -161,7 +167,17 @@ func runHandler(c Case) []ev.Violation {
 	r.s.SetAll(domain.StatusHealthy)
 	r.be.Reset()
 
-	req, _ := http.NewRequest("POST", r.s.BaseURL+"/olla/anthropic/v1/messages", strings.NewReader(c.Body))
+	wire := c.Body
+	if c.PadWS > 0 && strings.HasPrefix(wire, "{") {
+		wire = "{" + strings.Repeat(" ", c.PadWS) + wire[1:]
+		rec.Class(fmt.Sprintf("handler:body>1MiB=%v", len(wire) > 1<<20))
+	}
+	var rd io.Reader = strings.NewReader(wire)
+	if c.Chunked {
+		rd = struct{ io.Reader }{rd} // length unknown to net/http: sent chunked
+		rec.Class("handler:chunked")
+	}
+	req, _ := http.NewRequest("POST", r.s.BaseURL+"/olla/anthropic/v1/messages", rd)
 	req.Header.Set("Content-Type", "application/json")
 	req.Header.Set("anthropic-version", "2023-06-01")
 	req.Header.Set("x-api-key", "sk-verif")
